@@ -15,7 +15,7 @@ import os
 import sys
 from fractions import Fraction
 
-from common import REPO, VERIF, coq_bool, coq_list, coq_string, coq_z, frac, qc, sh
+from common import REPO, VERIF, coq_bool, coq_list, coq_string, coq_z, frac, qc, sh, source_pins
 
 TRUSTED_BASE = [
     "Coq 8.16.1 kernel + coqc (vm_compute only for finite sweeps over generated tables and concrete witnesses; no native_compute)",
@@ -40,6 +40,27 @@ RULE = ("seeded structured generator: reactant/product multisets (0-4 x 0-4 spec
         "parser's alphabet, and is taken through a history of 1-5 switch / save+load / ts=None / ts=TS / tss.append operations "
         "with len(tss), is_barrierless, ts and four deltas observed after every step. A case is non-trivial unless the reaction is the "
         "empty reaction; distinct by (stream, reaction spec, spelling / history)")
+
+# Functions the HAND-WRITTEN parts of coq/C05/Model.v (and the structural reference oracle of this file) were
+# written from.  Not listed, because tr/translate_c05.py matches every statement of them (fail-closed) or regenerates
+# them: Reaction.delta, _estimated_barrierless_delta, _check_balance, is_barrierless, ts (getter and setter), save,
+# load, reaction_types.classify, ReactionType.__eq__, TransitionStates.lowest_energy, utils.checkpoint_rxn_profile_step;
+# values._to and the unit tables (tr/translate_units.py).  Reaction.__init__ and switch_reactants_products are only
+# partly matched by the translator (order of the checks / the swap statement), so they are pinned as well.
+PINS = ([("autode/reactions/reaction.py", q) for q in (
+            "Reaction.__init__", "Reaction._init_from_molecules", "Reaction._check_solvent", "Reaction._check_names",
+            "Reaction.switch_reactants_products", "Reaction.from_checkpoint", "Reaction.__str__")] +
+        [("autode/reactions/reaction_types.py", "ReactionType.__init__")] +
+        [("autode/species/species.py", q) for q in (
+            "Species.__init__", "Species.charge", "Species.mult", "Species.solvent", "Species.energy",
+            "Species.h_cont", "Species.g_cont", "Species.free_energy", "Species.enthalpy")] +
+        [("autode/atoms.py", "AtomCollection.n_atoms")] +
+        [("autode/values.py", q) for q in (
+            "Energies.__init__", "Energies._next", "Energies.last", "Energy.__init__", "Value.__init__", "Value.__new__",
+            "Value._other_same_units", "Value._like_self_from_float", "Value.__add__", "Value.__radd__", "Value.__sub__",
+            "Value.__gt__", "Value.__lt__", "Value.to")] +
+        [("autode/units.py", "Unit.__eq__"), ("autode/solvent/solvents.py", "get_solvent"),
+         ("autode/solvent/solvents.py", "Solvent.__eq__")])
 
 SLICE = ["lib/Sums.v", "lib/QcInst.v", "C06/Base.v", "C06/Model.v", "C06/Lemmas.v", "gen/C06_Gen.v",
          "C05/Base.v", "gen/C05_Gen.v", "C05/Model.v", "C05/Lemmas.v", "C05/Props.v", "C05/Corr.v"]
@@ -875,6 +896,10 @@ def run_oracles(ctx, im, specs, spell_lists, full):
 def run(ctx):
     sys.path.insert(0, REPO)
     full = not ctx.quick
+    pins_changed = source_pins(ctx.pid, PINS)
+    ctx.cov["source_pins"] = {"pinned": len(PINS), "changed": pins_changed}
+    if pins_changed:
+        ctx.log("source pins changed:", ", ".join(pins_changed))
     # 1. regenerate the model tables from the repository
     ok_tr, outs = True, []
     for tr in ("translate_units.py", "translate_c05.py"):
@@ -895,7 +920,7 @@ def run(ctx):
         ctx.cov["checker_cmd"] = "translator failed closed; proofs not attempted"
     # 3. generated reactions + implementation-side property oracles (always run: they give the replays)
     im = Impl()
-    n = 2000 if full else 200
+    n = 2000 if full else (350 if pins_changed else 200)     # a changed pin: search harder for a failing input
     specs = [probe_spec(im), {"solvent_name": None, "reacs": [], "prods": [], "tss": []}]
     specs += [gen_reaction(ctx.rng, im, full) for _ in range(n)]
     spell_lists = [gen_spellings(ctx.rng, 6 if full else 3, 12 if full else 6) for _ in specs]
@@ -928,6 +953,9 @@ def run(ctx):
                           found_input=bool(corr_bad))
         else:
             ctx.log("correspondence disagreements explained by the implementation-level findings above")
+    if pins_changed and new_fail == 0 and not (corr_bad or corr_err) and proofs_ok:
+        ctx.violation("hand model no longer pinned to the source: " + ", ".join(pins_changed),
+                      {"kind": "source-pin", "changed": pins_changed}, found_input=False)
 
 
 def replay(ctx, obj):
